@@ -36,6 +36,8 @@ func runC11(c *Ctx) {
 		})
 	}
 	p := c.P
+	storedIsParam(c, p, "R2", "common/replayfilter.entry", "firstSeen", "common/replayfilter:(*ReplayFilter).TestAndSet", "now", "the time-to-live is measured from the instant the caller named, to the nanosecond")
+	mapValuesOwnAlloc(c, p, "R3", "common/replayfilter:(*ReplayFilter).TestAndSet", "filter entry")
 	tas := p.Func("common/replayfilter:(*ReplayFilter).TestAndSet")
 	ob := c.Obl("R0", "anchors", "ReplayFilter.TestAndSet exists")
 	if tas == nil {
